@@ -4,7 +4,7 @@ CONSTANTS
   Periods = {3, 30}
   Geneses = {1600000000, 1600000030}
   Firsts = {"A", "B"}
-  Seeds = {"S1", "S2"}
+  Seeds = {"S1"}
   Ids = {"", "default", "a"}
   NodeIdx = {0, 1, 2, 5}
   NodeKeys = {"N1", "N2", "N3"}
